@@ -409,6 +409,28 @@ pub fn run(ctx: &mut Ctx) {
         ctx.sample("amplify", || json!({"count": cases.len(), "sizes": cases.iter().map(|c| c.len()).collect::<Vec<_>>()}));
     }
 
+    // ---- (5b) several OPT pseudo-records in one message, at every subset of positions ----------
+    if ctx.family_active("multi-opt") {
+        let reps = if ctx.slow_tool { 1 } else { tier.pick(4u64, 100u64) };
+        let mut idx = 0u64;
+        for n in 2..=6usize {
+            for mask in 0u32..(1 << n) {
+                if mask.count_ones() < 2 {
+                    continue;
+                }
+                for rep in 0..reps {
+                    idx += 1;
+                    if !ctx.take("multi-opt", idx) {
+                        continue;
+                    }
+                    let b = super::c05::multi_opt_msg(ctx, idx, n, mask, rep);
+                    ctx.add("multi_opt_cases", 1);
+                    check_parse(ctx, "multi-opt", idx, &b);
+                }
+            }
+        }
+    }
+
     // ---- (6) havoc ----------------------------------------------------------------------------
     if ctx.family_active("havoc") {
         let n = if ctx.slow_tool { 160 } else { tier.pick(3_000_000u64, 250_000_000u64) };
